@@ -448,6 +448,7 @@ func parentMain(d *Driver, flavour, tier string, seed int64) int {
 					"VERIF_PARTIAL="+filepath.Join(tmp, fmt.Sprintf("p%d.json", id)),
 					"VERIF_TIER="+tier,
 					"GOMAXPROCS=2",
+					"GORACE=halt_on_error=1 exitcode=66",
 				)
 				out, err := cmd.CombinedOutput()
 				t := string(out)
@@ -471,6 +472,13 @@ func parentMain(d *Driver, flavour, tier string, seed int64) int {
 					merged.P.Counters["workers_crashed"]++
 					continue
 				}
+			}
+			if strings.Contains(r.tail, "WARNING: DATA RACE") {
+				// the free-running -race pass: the Go race detector has no false positives
+				rep := r.tail[strings.Index(r.tail, "WARNING: DATA RACE"):]
+				merged.Report(&Finding{Sig: "data race reported by the Go race detector: " + raceSites(rep), What: rep[:minInt(len(rep), 600)], Case: map[string]string{"report": rep[:minInt(len(rep), 3000)]}, Count: 1})
+				merged.P.Counters["race_reports"]++
+				continue
 			}
 			if f := libraryCrash(r.tail); f != nil {
 				// an unrecovered panic or fatal error whose stack is inside the library (typically in a
@@ -550,6 +558,37 @@ func libraryCrash(out string) *Finding {
 	// drop addresses/ranges so that the signature is stable
 	sig := regexp.MustCompile(`[0-9]+`).ReplaceAllString(first, "N")
 	return &Finding{Sig: "the library crashes the process (unrecovered in a library goroutine): " + sig, What: first, Case: map[string]string{"stderr": rest[:minInt(len(rest), 1500)]}, Count: 1}
+}
+
+// raceSites extracts the two conflicting access sites (file:line inside the library) of a race
+// report as a stable signature.
+func raceSites(rep string) string {
+	var sites []string
+	for _, l := range strings.Split(rep, "\n") {
+		l = strings.TrimSpace(l)
+		if strings.HasPrefix(l, "/") && strings.Contains(l, ".go:") && !strings.Contains(l, "/verif/harness/") && !strings.Contains(l, "/usr/") && !strings.Contains(l, "/opt/") {
+			f := l
+			if i := strings.Index(f, " "); i > 0 {
+				f = f[:i]
+			}
+			if i := strings.LastIndex(f, "/"); i >= 0 {
+				f = f[i+1:]
+			}
+			dup := false
+			for _, s := range sites {
+				if s == f {
+					dup = true
+				}
+			}
+			if !dup {
+				sites = append(sites, f)
+			}
+			if len(sites) == 2 {
+				break
+			}
+		}
+	}
+	return strings.Join(sites, " / ")
 }
 
 func minInt(a, b int) int {
